@@ -24,12 +24,16 @@ PBind == {"absent", Post, Redirect, Artifact, "bogus"}
 \* the server is long-lived: prev is the authentication request it answered just before (none, sp1 naming url1, sp2 naming
 \* urlB).  Where it answers now is a function of the present request and the requester's metadata alone.
 Prev == {"none", "sp1_url1", "sp2_urlB"}
-Scn == [typ : {"authn"}, layout : Layouts, issuer : Issuers, url : Urls, index : Indexes, pbinding : PBind, prev : Prev]
-       \cup [typ : {"logout"}, layout : Layouts, issuer : Issuers, url : {"absent"}, index : {"absent"}, pbinding : {"absent"}, prev : Prev]
+\* signed: the authentication request carries a valid enveloped signature of the requester (delivered over HTTP-POST).  A
+\* signature authenticates the requester; it does not register endpoints.
+Scn == [typ : {"authn"}, layout : Layouts, issuer : Issuers, url : Urls, index : Indexes, pbinding : PBind, prev : Prev, signed : BOOLEAN]
+       \cup [typ : {"logout"}, layout : Layouts, issuer : Issuers, url : {"absent"}, index : {"absent"}, pbinding : {"absent"}, prev : Prev,
+             signed : {FALSE}]
+WellFormed(s) == s.signed => s.issuer # "unknown" /\ s.prev = "none" /\ s.index = "absent"
 
 VARIABLES scn, pc, result
 vars == <<scn, pc, result>>
-Init == scn \in Scn /\ pc = "pick" /\ result = <<"none", "none">>
+Init == scn \in {s \in Scn : WellFormed(s)} /\ pc = "pick" /\ result = <<"none", "none">>
 
 Endpoints(s) == IF s.issuer = "sp1" THEN (IF s.typ = "authn" THEN Acs(s.layout) ELSE Slo(s.layout))
                 ELSE IF s.issuer = "sp2" THEN (IF s.typ = "authn" THEN AcsOther ELSE SloOther) ELSE <<>>
